@@ -766,17 +766,17 @@ Proof.
   rewrite (nth_pattern cparts rcs rcs_len r H). reflexivity.
 Qed.
 
-Theorem dist_spmv_assembled alpha (x : vec) beta (y : vec) : length y = nrows A ->
-  concat (dist_spmv alpha D (chunks cparts x) beta (chunks rparts y)) = spmv alpha A x beta y.
+(* rank by rank: every rank's result is the serial row formula on its own rows *)
+Lemma dist_spmv_pieces alpha (x : vec) beta (y : vec) : length y = nrows A ->
+  dist_spmv alpha D (chunks cparts x) beta (chunks rparts y)
+  = map2 (map2 (fun rw yi => alpha * dotrow rw x + beta * yi)) (chunks rparts (rows A)) (chunks rparts y).
 Proof.
   intro Hy. unfold dist_spmv. change (dm_cparts D) with cparts.
   rewrite (map_ext_in _ (fun r => map2 (fun rw yi => alpha * dotrow rw x + beta * yi)
                                        (nth r (chunks rparts (rows A)) []) (nth r (chunks rparts y) []))).
-  - rewrite (map_seq_nth2 (map2 (fun rw yi => alpha * dotrow rw x + beta * yi))
-                          (chunks rparts (rows A)) (chunks rparts y) [] [] n)
-      by (rewrite chunks_length; exact Hparts).
-    rewrite concat_map2_chunks by (unfold nrows in Hrows; lia).
-    symmetry. apply spmv_map2. exact Hy.
+  - apply (map_seq_nth2 (map2 (fun rw yi => alpha * dotrow rw x + beta * yi))
+                        (chunks rparts (rows A)) (chunks rparts y) [] [] n);
+      rewrite chunks_length; exact Hparts.
   - intros r Hr. apply in_seq in Hr. destruct Hr as [_ Hr]. simpl in Hr.
     rewrite cp_rc_nth by exact Hr. rewrite nth_rank by exact Hr. rewrite nth_rcs by exact Hr.
     unfold dm_pattern. change (dm_cparts D) with cparts.
@@ -788,6 +788,28 @@ Proof.
                           (nth r (chunks rparts y) [])).
     + intros c Hc. apply vget_chunk; assumption.
     + apply chunk_lengths_eq; [lia | exact Hy].
+Qed.
+
+Theorem dist_spmv_assembled alpha (x : vec) beta (y : vec) : length y = nrows A ->
+  concat (dist_spmv alpha D (chunks cparts x) beta (chunks rparts y)) = spmv alpha A x beta y.
+Proof.
+  intro Hy. rewrite dist_spmv_pieces by exact Hy.
+  rewrite concat_map2_chunks by (unfold nrows in Hrows; lia).
+  symmetry. apply spmv_map2. exact Hy.
+Qed.
+
+(* every rank's piece has the size of the rank's row range *)
+Lemma dist_spmv_shape alpha (x : vec) beta (y : vec) : length y = nrows A ->
+  map (@length S) (dist_spmv alpha D (chunks cparts x) beta (chunks rparts y)) = rparts.
+Proof.
+  intro Hy. rewrite dist_spmv_pieces by exact Hy.
+  assert (G : forall parts (l1 : list row) (l2 : vec), length l1 = length l2 -> psum parts = length l1 ->
+              map (@length S) (map2 (map2 (fun rw yi => alpha * dotrow rw x + beta * yi)) (chunks parts l1) (chunks parts l2)) = parts).
+  { clear. induction parts as [|p ps IH]; intros l1 l2 H1 H2; simpl in *; [reflexivity|].
+    f_equal.
+    - rewrite map2_length by (rewrite !firstn_length, H1; reflexivity). rewrite firstn_length. lia.
+    - apply IH; rewrite !skipn_length; lia. }
+  apply G; [unfold nrows in Hy; lia | exact Hrows].
 Qed.
 
 Theorem dist_residual_assembled (f x res : vec) : length f = nrows A -> length res = nrows A ->
